@@ -18,6 +18,7 @@ type readSite struct {
 	instr ssa.Instruction
 	field string
 	via   string // callee through which the read happens ("" = direct)
+	leaf  *ssa.Function // function in which the field is actually read
 }
 
 // paramFieldReads: read sites of the fields of parameter pidx of fn (struct passed by value).
@@ -79,12 +80,12 @@ func (e *Engine) paramFieldReads(fn *ssa.Function, pidx int, seen map[string]boo
 						}
 					}
 					if isRead {
-						out = append(out, readSite{fn, in, st.Field(in.Field).Name(), ""})
+						out = append(out, readSite{fn, in, st.Field(in.Field).Name(), "", fn})
 					}
 				}
 			case *ssa.Field:
 				if holds[in.X] {
-					out = append(out, readSite{fn, in, st.Field(in.Field).Name(), ""})
+					out = append(out, readSite{fn, in, st.Field(in.Field).Name(), "", fn})
 				}
 			case ssa.CallInstruction:
 				c := in.Common()
@@ -96,18 +97,18 @@ func (e *Engine) paramFieldReads(fn *ssa.Function, pidx int, seen map[string]boo
 					if callee == nil || callee.Blocks == nil || !e.inRepo(callee) {
 						// handed to unknown code: every field may be read
 						for i := 0; i < st.NumFields(); i++ {
-							out = append(out, readSite{fn, in, st.Field(i).Name(), "unknown callee"})
+							out = append(out, readSite{fn, in, st.Field(i).Name(), "unknown callee", nil})
 						}
 						continue
 					}
 					for _, r := range e.paramFieldReads(callee, ai, seen, depth+1) {
-						out = append(out, readSite{fn, in, r.field, callee.String()})
+						out = append(out, readSite{fn, in, r.field, callee.String(), r.leaf})
 					}
 				}
 			case *ssa.MakeInterface:
 				if holds[in.X] {
 					for i := 0; i < st.NumFields(); i++ {
-						out = append(out, readSite{fn, in, st.Field(i).Name(), "boxed"})
+						out = append(out, readSite{fn, in, st.Field(i).Name(), "boxed", nil})
 					}
 				}
 			}
@@ -161,6 +162,51 @@ func init() {
 			out = append(out, r)
 		}
 		return out, nil
+	}
+	// field-read-only-in: every read of the field (direct or through a callee) happens in one of
+	// the listed functions - nothing else in the call tree can be influenced by it.
+	staticKinds["field-read-only-in"] = func(eng *Engine, id string, s StaticSpec) ([]*StaticResult, []string) {
+		fn, _, err := eng.LookupFunc(s.Args["func"])
+		if err != nil {
+			return nil, []string{err.Error()}
+		}
+		pi := paramIndex(fn, s.Args["param"])
+		if pi < 0 {
+			return nil, []string{fmt.Sprintf("field-read-only-in: %s has no parameter %s", fn, s.Args["param"])}
+		}
+		allowed := map[string]bool{}
+		for _, a := range s.List {
+			af, _, err := eng.LookupFunc(a)
+			if err != nil {
+				return nil, []string{err.Error()}
+			}
+			allowed[af.String()] = true
+		}
+		f := s.Args["field"]
+		var bad []string
+		n := 0
+		for _, r := range eng.paramFieldReads(fn, pi, map[string]bool{}, 0) {
+			if r.field != f {
+				continue
+			}
+			n++
+			if r.leaf == nil || !allowed[r.leaf.String()] {
+				where := r.via
+				if r.leaf != nil {
+					where = fnDisplayName(r.leaf)
+				}
+				bad = append(bad, fmt.Sprintf("%s (reached from %s at %s)", where, fnDisplayName(r.fn), shortPos(eng.fset.Position(r.instr.Pos()).String())))
+			}
+		}
+		sort.Strings(bad)
+		r := &StaticResult{Name: fmt.Sprintf("reads %s / %s.%s is consulted only by %s", fnDisplayName(fn), s.Args["param"], f, s.Args["why_short"]), Kind: "field-read-only-in",
+			Text: fmt.Sprintf("in the call tree of %s, %s.%s is read only in %v (%d read sites): %s", fnDisplayName(fn), s.Args["param"], f, s.List, n, s.Args["why"]), OK: len(bad) == 0 && n > 0}
+		if len(bad) > 0 {
+			r.Detail = "also read by " + strings.Join(bad, "; ")
+		} else if n == 0 {
+			r.Detail = "the field is not read at all"
+		}
+		return []*StaticResult{r}, nil
 	}
 	// guarded-read: every read of the listed fields (direct or through a callee) sits in a block
 	// that is only reached through the true branch of a test `len(x) == 0`.
